@@ -154,3 +154,96 @@ def compare(impl_text, model_exe):
     if len(ri) != len(rm):
         diffs.append((-1, -1, "%d histories" % len(ri), "%d histories" % len(rm)))
     return stats, diffs, mons, hi, ""
+
+
+# ---- extraction cross-check: one history evaluated inside Coq (vm_compute, toy hash) -------------
+
+def _cb(b):
+    """bytes -> Coq list of Byte constructors"""
+    return "[" + ";".join("x%02x" % c for c in b) + "]"
+
+
+def _unhex(s):
+    return b"" if s in ("-", "") else bytes.fromhex(s)
+
+
+def _fault(f):
+    return {"ok": "FOk", "fail": "FFailNotApplied", "failapplied": "FFailApplied"}[f]
+
+
+def _cfg(name, key, pool):
+    return "(mkCfg %s %s%%N %s%%N)" % (_cb(name.encode()), key, pool)
+
+
+def coq_event(line):
+    """the Coq term of one harness event line (mirror of ocaml/seq.ml); None for driver-only lines"""
+    f = line.split("|")
+    k = f[1]
+    if k == "clock":
+        return "EvClock (%s)%%Z" % f[2]
+    if k == "create":
+        return "EvCreate %s %s" % (f[2], _cfg(f[3], f[4], f[5]))
+    if k == "start":
+        keep = "None" if f[6] == "-" else "(Some %s%%nat)" % f[6]
+        return "EvStart %s %s %s" % (f[2], _cfg(f[3], f[4], f[5]), keep)
+    if k == "step":
+        return "EvStep %s %s %s" % (f[2], _fault(f[3]), _cb(b"" if f[4] == "-" else f[4].encode()))
+    if k == "submit":
+        i, low, victim, fs, cert, pre, ikh, issuers, precert, names = f[2:12]
+        iss = "[" + ";".join(_cb(_unhex(x)) for x in issuers.split(",")) + "]" if issuers not in ("-", "") else "[]"
+        fl = "[" + ";".join(_fault(x) for x in fs.split(",")) + "]" if fs not in ("-", "") else "[]"
+        e = "(mkEntry %s %s %s %s %s %s)" % (_cb(_unhex(cert)), "true" if pre == "1" else "false", _cb(_unhex(ikh)), iss,
+                                           _cb(_unhex(precert)), _cb(_unhex(names)))
+        return "EvSubmit %s %s %s %s%%nat %s" % (i, e, "true" if low == "1" else "false", victim, fl)
+    if k == "tick":
+        return "EvTick %s" % f[2]
+    if k == "crash":
+        return "EvCrash %s" % f[2]
+    if k == "stop":
+        return "EvStop %s %s" % (f[2], "SSunset" if f[3] == "sunset" else "SCancel")
+    if k == "cachedrop":
+        return "EvCacheDrop %s %s%%nat" % (f[2], f[3])
+    if k == "recompute":
+        return "EvRecompute %s %s%%N %s" % (f[2], f[3], "None" if f[4] == "-" else "(Some %s%%N)" % f[4])
+    if k == "tamper":
+        key = _cb(f[2].encode())
+        if f[3] == "delete":
+            return "EvTamper %s None" % key
+        if f[3] == "bytes":
+            return "EvTamper %s (Some (OB %s))" % (key, _cb(_unhex(f[4])))
+        if f[3] == "cp":
+            return "EvTamper %s (Some (OC (mkCp %s %s%%N %s (%s)%%Z %s%%N %s)))" % (
+                key, _cb(f[4].encode()), f[5], _cb(_unhex(f[6])), f[7], f[8], _cb(_unhex(f[9])))
+    return None
+
+
+def vm_crosscheck(history, model_exe, tag):
+    """history: the raw lines of ONE harness history. The extracted model is run with the toy hash
+    (-toy) and the same event list is evaluated with vm_compute inside Coq; every observation line
+    must agree. Returns (ok, n_events, detail)."""
+    evs = [l for l in history if l.startswith("ev|") and l.split("|")[1] not in ("reset", "sync", "dump", "lgset", "lgget", "lgdrop")]
+    terms = [coq_event(l) for l in evs]
+    if any(t is None for t in terms) or not evs:
+        return True, 0, "skipped"
+    p = subprocess.run([model_exe, "-toy"], input=("\n".join(evs) + "\n").encode(), stdout=subprocess.PIPE, stderr=subprocess.PIPE, timeout=600)
+    if p.returncode != 0:
+        return False, len(evs), "extracted model failed with -toy: " + p.stderr.decode()[-1000:]
+    want = [l[2:] for l in p.stdout.decode().split("\n") if l.startswith("> ")]
+    d = os.path.join(L.BUILD, "cases")
+    os.makedirs(d, exist_ok=True)
+    v = os.path.join(d, "seq_%s.v" % tag)
+    with open(v, "w") as f:
+        f.write("From SL Require Import Base.Bytes Ctlog.Run Ctlog.Example.\nOpen Scope byte_scope.\n")
+        f.write("Definition evs : list ev := [\n" + ";\n".join(terms) + "].\n")
+        f.write("Definition want : list bytes := [\n" + ";\n".join(_cb(w.encode()) for w in want) + "].\n")
+        f.write("Fixpoint go (w : world) (l : list ev) : list bytes := match l with [] => [] | e :: r => "
+                "let '(w1, o) := step_show toy_sha w e in o ++ go w1 r end.\n")
+        f.write("Fixpoint eqs (a b : list bytes) (k : nat) : list nat := match a, b with [], [] => [] "
+                "| x :: a', y :: b' => (if bytes_eqb x y then [] else [k]) ++ eqs a' b' (S k) | _, _ => [k] end.\n")
+        f.write("Definition bad := Eval vm_compute in eqs (go init evs) want O.\nPrint bad.\n")
+    with L.Lock("coq"):
+        rc, out, dt = L.run(["coqc", "-Q", L.COQ, "SL", "-w", "-notation-overridden,-deprecated", v], cwd=d, timeout=900)
+    flat = " ".join(out.split())
+    if rc != 0 or "bad = []" not in flat:
+        return False, len(evs), "vm_compute evaluation of the sequencer model inside Coq disagrees with the extracted OCaml model (or failed); file %s\n%s" % (v, out[-3000:])
+    return True, len(evs), "%d events, %d observation lines" % (len(evs), len(want))
